@@ -675,7 +675,11 @@ export class TypeofRuntype extends BaseRuntype {
   protected describeTypeExpr(_ctx: DescribeContext): string {
     return this.typeName;
   }
-  schema(_ctx: SchemaContext): JSONSchema7 {
+  schema(ctx: SchemaContext): JSONSchema7 {
+    // the compiler also emits typeof checks for what JSON cannot carry (a function-typed member)
+    if (this.typeName !== "string" && this.typeName !== "number" && this.typeName !== "boolean") {
+      throw new Error(buildSchemaErrorMessage(ctx, `Cannot generate JSON Schema for ${this.typeName}`));
+    }
     return annotateSchema(this.metadata, { type: this.typeName });
   }
   validate(_ctx: ValidateContext, input: unknown): boolean {
